@@ -104,7 +104,12 @@ impl Property for C01 {
             return Outcome::inconclusive("mismatch-not-confirmed-in-fresh-processes");
         };
         let (l1, l2) = progrun::first_diff_line(&er.stdout_str(), &pr.stdout_str());
-        let kind = progrun::diff_kind(&er, &pr);
+        let mut kind = progrun::diff_kind(&er, &pr);
+        if kind.starts_with("compiled program raises ValueError: Nat can't be negative") {
+            // the recorded family needs a loop body; a straight-line program is another matter
+            let ctx = if b.erg.contains("for! ") || b.erg.contains("while! ") { "inside a loop" } else { "straight-line code" };
+            kind = format!("{kind} ({ctx})");
+        }
         // pinned explicit-source replays never share a signature with generated cases
         let sig = if case.explicit.is_some() && !case.generated_signature { format!("pinned: {kind}") } else { kind };
         Outcome::fail(
